@@ -223,6 +223,74 @@ def iteration_checks(ctx, n_cases):
         ctx.traces_validated += 1
 
 
+def asymmetric_fields_stream(ctx, n):
+    """sequences whose steps carry a field on ONE side only, of equal or different lengths, under the ignore-missing-field
+    options: which side is the result and which the reference matters for every step, also when the result is the longer one"""
+    rng = ctx.rng
+    for it in range(n):
+        nres, nref = rng.randint(1, 4), rng.randint(1, 4)
+        if rng.random() < 0.4:
+            nref = nres
+        extra_on = rng.choice(["res", "ref"])
+        ign_src_f, ign_ref_f = rng.random() < 0.5, rng.random() < 0.5
+        ign_steps, force = rng.random() < 0.6, rng.random() < 0.4
+        d = os.path.join(str(ctx.workdir), f"asym{it}")
+        os.makedirs(d)
+        for side, k in (("res", nres), ("ref", nref)):
+            steps = []
+            for i in range(k):
+                p = os.path.join(d, f"{side}_{i}.vtu")
+                pts = [[0.0, 0.0, 0.0], [1.0, 0.0, 0.0], [1.0, 1.0, 0.0], [0.0, 1.0, 0.0]]
+                pf = [("u", "Float64", 1, [float(i), 1.0, 2.0, 3.0])]
+                if side == extra_on:
+                    pf.append(("only_here", "Float64", 1, [7.0, 7.0, 7.0, 7.0]))
+                V.write_vtu(p, pts, [(9, [0, 1, 2, 3])], pf, [], V.Cfg("ascii"))
+                steps.append(os.path.basename(p))
+            V.write_pvd(os.path.join(d, f"{side}.pvd"), steps)
+        argv = ["file", os.path.join(d, "res.pvd"), os.path.join(d, "ref.pvd"), "--verbosity", "1"]
+        argv += ["--ignore-missing-source-fields"] if ign_src_f else []
+        argv += ["--ignore-missing-reference-fields"] if ign_ref_f else []
+        argv += ["--ignore-missing-sequence-steps"] if ign_steps else []
+        argv += ["--force-sequence-comparison"] if force else []
+        with warnings.catch_warnings():
+            warnings.simplefilter("ignore")
+            rc, log, exc = run_cli(argv)
+        shutil.rmtree(d, ignore_errors=True)
+        # a field only in the result is "missing in the reference", a field only in the reference "missing in the source"
+        field_ok = ign_ref_f if extra_on == "res" else ign_src_f
+        steps_ok = nres == nref or ign_steps
+        compared = nres == nref or ign_steps or force
+        want_zero = steps_ok and (field_ok or not compared)
+        if not compared:
+            want_zero = False
+        sc = {"asymmetric_fields": {"steps": [nres, nref], "field_only_in": extra_on, "ignore_missing_source_fields": ign_src_f,
+                                    "ignore_missing_reference_fields": ign_ref_f, "ignore_missing_sequence_steps": ign_steps,
+                                    "force_sequence_comparison": force}}
+        ctx.case(sc, True, sample={"scenario": sc, "exit": rc})
+        ctx.count(f"asymmetric fields:{'longer result' if nres > nref else 'longer reference' if nref > nres else 'equal length'}")
+        ctx.tie("T2 sequences with one-sided fields: result / reference roles")
+        if exc:
+            ctx.violation("E4", f"sequence comparison: exception escaped: {exc}", sc)
+        elif (rc == 0) != want_zero:
+            ctx.violation("E4", f"sequence comparison with a field only in the {'result' if extra_on == 'res' else 'reference'} steps: "
+                                f"exit {rc}, the statement requires {'0' if want_zero else 'non-zero'}", sc)
+        ctx.traces_validated += 1
+
+
+def long_sequence_cases(ctx, lengths):
+    """equally long sequences of a few hundred steps compare as equally long (all steps compared, exit 0)"""
+    for L in lengths:
+        c = {"res": list(range(L)), "ref": list(range(L)), "dev": None, "ign": False, "force": False, "kind": "seq", "container": "pvd"}
+        im = run_impl(c, str(ctx.workdir), 700000 + L)
+        sc = {"long_sequence": L}
+        ctx.case(sc, True, sample={"steps": L, "exit": im["exit"], "compared": len(im["steps"])})
+        ctx.count("long sequences")
+        if im["escaped"] or im["exit"] != 0 or im["steps"] != list(range(L)):
+            ctx.violation("E4", f"two identical sequences of {L} steps: exit {im['exit']}, {len(im['steps'])} steps compared "
+                                f"(escaped: {im['escaped']})", sc)
+        ctx.traces_validated += 1
+
+
 def t1(ctx):
     """_merged_result is a nested closure: tabulated through _compare_field_sequences is not possible without files;
     the merge algebra is tied by the T2 stream (every combination of passing / failing / domain-failing steps)."""
@@ -266,6 +334,8 @@ def run(ctx):
             ctx.violation("E2", f"model {mo} != implementation {im}", c, found_input=False, impl=im, model=mo)
         ctx.traces_validated += 1
     iteration_checks(ctx, 60 if ctx.tier == "quick" else 1500)
+    asymmetric_fields_stream(ctx, 40 if ctx.tier == "quick" else 1000)
+    long_sequence_cases(ctx, [257] if ctx.tier == "quick" else [256, 257, 300, 1030])
     ctx.rule = (".pvd sequences of lengths 1..6 on both sides, a deviating step (field value or mesh) at first/last/random position, "
                 "plus every position for lengths <= 4 under all option combinations; sequence vs single file; iteration after partial "
                 "consumption and twice. non-trivial = a deviating step, differing lengths or a kind mismatch")
